@@ -50,6 +50,7 @@ FIRST_MISSED = {
     "C18-7": "new sub-check `closed_int_cycles` (int64 / Int64 / int32 / uint32 cycle counts incl. small ones == float64 storage; cycles x 2^e)",
     "C18-8": "new sub-check `history_transition` (one FatigueData object: analyse, set the transition, analyse again == fresh object)",
     "C01-9": "every partition is fed a second time with each chunk in another container kind / dtype (float64, int64, list, float32, Series)",
+    "C02-8": "the same signal at another order of magnitude (exact scaling by 2^200, 2^520, 2^-200) in `reference_random` / `fkm_random`",
     "C02-1": "signal kind `decimal` (values single precision cannot represent, with exact ties)",
     "C02-3": "operator `near_plateau` (neighbour 1 ulp / 1e-12 / 1e-9 away: no plateau)",
     "C03-3": "new sub-check `nan_chunked` (NaN clause combined with chunked feeding)",
